@@ -78,6 +78,13 @@ func hookRandInt31n(n int32) int32 {
 	return int32(simRng.Intn(int(n)))
 }
 
+func hookRandFloat() float64 {
+	if simRng == nil {
+		return 0.25
+	}
+	return float64(simRng.Intn(1000)) / 1000.0
+}
+
 func hookChoose(point string, n int) int {
 	if simChoose == nil {
 		return 0
@@ -92,6 +99,7 @@ func installHooks() {
 	bttest.VerifSim.Choose = hookChoose
 	bttest.VerifSim.WallNow = hookWallNow
 	bttest.VerifSim.RandInt31n = hookRandInt31n
+	bttest.VerifSim.RandFloat = hookRandFloat
 	bttest.VerifSim.DisableGCLoop = true
 	gcsutil.VerifSim.Yield = hookYield
 	gcsutil.VerifSim.Block = hookBlock
